@@ -21,4 +21,4 @@ else
   git -C "$tree" apply "$patch" || { echo "patch does not apply"; exit 2; }
 fi
 ( cd "$tree" && $E go test -count=1 ./... >/dev/null 2>&1 && echo "repo tests: pass" ) || echo "repo tests: FAIL"
-cd /verif && VERIF_REPO=$tree VERIF_EVIDENCE_DIR=/tmp/verif-mutant-evidence VERIF_REPLAYS=${VERIF_REPLAYS:-/tmp/verif-mutant-replays} VERIF_BUDGET=$budget ./bin/verif check "$prop" 2>&1 | grep -E "VIOLATION|signature|detail|KNOWN|INFRA|note:|^verif: property.*exit" | cut -c1-400
+cd ${VERIF_HOME:-/verif} && VERIF_REPO=$tree VERIF_EVIDENCE_DIR=/tmp/verif-mutant-evidence VERIF_REPLAYS=${VERIF_REPLAYS:-/tmp/verif-mutant-replays} VERIF_BUDGET=$budget ./bin/verif check "$prop" 2>&1 | grep -E "VIOLATION|signature|detail|KNOWN|INFRA|note:|^verif: property.*exit" | cut -c1-400
